@@ -127,11 +127,15 @@ package geom
 //@ func Sequence.appendAllPoints
 //@   modifies dst
 //@   ensures len(result) == len(dst) + len(s.floats)
+//@   ensures forall q :: 0 <= q && q < len(dst) ==> same(result[q], old(dst[q]))
+//@   ensures forall q :: 0 <= q && q < len(s.floats) ==> same(result[len(dst) + q], old(s.floats[q]))
 //@   ensures (cap(dst) > 0 && region(result) == region(dst) && offset(result) == offset(dst)) || fresh(result)
 //@ func Sequence.appendPoint
 //@   requires 0 <= i && i < NPts(s)
 //@   modifies dst
 //@   ensures len(result) == len(dst) + Dim(s.ctype)
+//@   ensures forall q :: 0 <= q && q < len(dst) ==> same(result[q], old(dst[q]))
+//@   ensures forall d :: 0 <= d && d < Dim(s.ctype) ==> same(result[len(dst) + d], old(s.floats[i * Dim(s.ctype) + d]))
 //@   ensures (cap(dst) > 0 && region(result) == region(dst) && offset(result) == offset(dst)) || fresh(result)
 //@ func Sequence.assertNoUnusedCapacity
 //@   requires cap(s.floats) == len(s.floats)
